@@ -15,9 +15,11 @@ RULE = ("interleaved set / remove / read / restart of displayname, calendar-colo
 ATOMS = ["plain", "two words", "100%", "%%", "50%% off", "%(x)s", "%(displayname)s", "a%b", "$HOME", "${x}", "$(x)", "'single'", "\"double\"", "[section]", "[a", "b]", "# hash", "a#b",
          "semi;colon", "; lead", "key=value", "=eq", "a:b", "back\\slash", "\\n", "\\", "tab\there", "a  b", "<tag>", "&amp;", "a&b", "Ünïcödé", "日本語", "😀", "é", "x" * 300,
          "true", "None", "0", "~", "`cmd`", "a|b", "{json: 1}", "\\x00", "%", "trailing\\"]
+# characters that str.splitlines() (but no XML, configparser or git-config reader) treats as line ends: typical of pasted text
+USEP_ATOMS = ["pasted\u2028text", "two\u2029paragraphs: b = c", "next\u0085line", "a\u2028#b", "x\u2028[y]"]
 NL_ATOMS = ["a\n#b", "a\n;b", "a\n[sec]", "a\n  b", "a\n\nb", "a\nb=c", "a\nb"]
 
-FEATURES = [("newline", "\n"), ("percent-paren", "%("), ("percent", "%"), ("hash", "#"), ("semicolon", ";"), ("backslash", "\\"), ("dquote", "\""), ("squote", "'"),
+FEATURES = [("newline", "\n"), ("unicode-line-separator", "\u2028"), ("unicode-line-separator", "\u2029"), ("unicode-line-separator", "\u0085"), ("percent-paren", "%("), ("percent", "%"), ("hash", "#"), ("semicolon", ";"), ("backslash", "\\"), ("dquote", "\""), ("squote", "'"),
             ("bracket", "["), ("bracket", "]"), ("equals", "="), ("colon", ":"), ("dollar", "$"), ("tab", "\t"), ("double-blank", "  "), ("xml-special", "<"), ("xml-special", "&")]
 
 
@@ -44,7 +46,7 @@ def gen_value(rng, prop, meta, allow_nl):
         if allow_nl and rng.random() < 0.12:
             v = rng.choice(NL_ATOMS)
         else:
-            v = rng.choice(ATOMS)
+            v = rng.choice(ATOMS) if rng.random() > 0.08 else rng.choice(USEP_ATOMS)
             if rng.random() < 0.4:
                 v = v + " " + rng.choice(ATOMS)
         v = v.strip()
@@ -433,7 +435,7 @@ def check(tier, seed, t0):
     guards = [("sets", c.get("sets", 0), 300 * k), ("sets reported 200", c.get("sets_ok", 0), 300 * k), ("value comparisons after read-back", c.get("value_comparisons", 0), 3000 * k),
               ("restarts", c.get("restarts", 0), 12), ("address books typed after their properties were set", sum(v for k_, v in c.items() if k_.startswith("ab0_created_by:") and k_ != "ab0_created_by:extended-MKCOL"), 3), ("removes", c.get("removes", 0), 50 * k), ("removes reported 200", c.get("removes_ok", 0), 40 * k), ("reads of a removed property", c.get("removed_value_checks", 0), 200 * k),
               ("PROPPATCH requests with a remove and a set of one property", c.get("ordered_proppatches", 0), 40 * k), ("property sets while the index lock was held", c.get("sets_while_locked", 0), 15 * k), ("PROPPATCH requests setting several properties", c.get("multi_sets", 0), 80 * k)]
-    for f in ("percent", "hash", "backslash", "dquote", "bracket", "equals", "colon", "nonascii", "plain"):
+    for f in ("percent", "hash", "backslash", "dquote", "bracket", "equals", "colon", "nonascii", "plain", "unicode-line-separator"):
         guards.append(("successful sets with feature " + f, c.get("sets_ok:" + f, 0), 3))
     return common.finish(PROP, tier, seed, "exploration", merged, failures, RULE, t0, guards=guards,
                          assumptions=["a set counts as successful iff its propstat is 200", "values have no leading/trailing white space and no CR; ';' is not generated for the git-config back end"])
